@@ -74,3 +74,31 @@ H("C05", "css/selector", "VxH_C05_attr", reach=["op:=", "op:~=", "op:|=", "op:^=
 H("C05", "css/selector", "VxH_C05_empty", reach=["done"], bounds="0..2 children, text of 0..2 ASCII bytes")
 H("C05", "css/selector", "VxH_C05_spec", reach=["done"], bounds="three leaf selectors with symbolic specificity components in [0,9]")
 H("C05", "css/selector", "VxH_C05_comb", reach=["done"], bounds="tree root>c0,c1,c2; c1>g with symbolic node kinds/tags; 8 selector shapes over leaf tag selectors")
+
+# ---- C07 parsers never crash ----
+ASSUMPTIONS["C07"] = [
+    "inputs are arbitrary byte strings (every byte value 0..255, invalid UTF-8 included) or arbitrary token lists up to the stated lengths; longer inputs are outside the claim",
+    "regexp is modelled by a backtracking VM over the real regexp/syntax program; strconv.ParseFloat on symbolic digits is a syntax acceptor with an uninterpreted value",
+]
+CLAIMS["C07"] = {
+    "text": "Pure panic-freedom and termination obligations: the listed parsers are executed symbolically on arbitrary bytes / tokens up to the stated lengths; every feasible path returns, none panics.",
+    "design_ref": "DESIGN.md section 4 C07",
+    "note": "Trusted: symgo, z3, the regexp and ParseFloat models. Bounded input lengths (2-4 bytes quick, 3-6 thorough depending on the parser).",
+}
+H("C07", "css/parser", "VxH_C07_tokenize", reach=["tokenized"], bounds="Tokenize on every byte string of length 0..2 (thorough 0..3), skipComments symbolic", thorough={"shards": 12, "time": "2400s", "maxpaths": 4000000, "sharddepth": 26})
+
+# ---- C20 serialisation round trip ----
+ASSUMPTIONS["C20"] = [
+    "token values are valid UTF-8 without NUL (the tokenizer itself maps NUL to U+FFFD); lengths as stated",
+    "comparison ignores comments and source positions, as the property does; numeric values are compared through their textual representation and integer flag",
+]
+CLAIMS["C20"] = {
+    "text": "For symbolic token values (identifiers, at-keywords, hashes, function names, strings, urls of <=2-3 bytes), for pairs of adjacent tokens of symbolic kinds, and for every error-free token list obtained from <=2 (thorough 3) source bytes, the solver shows Tokenize(Serialize(tokens)) == tokens.",
+    "design_ref": "DESIGN.md section 4 C20",
+    "note": "Trusted: symgo, z3, regexp model, fmt model. Bounded lengths; ParseFloat value uninterpreted.",
+}
+H("C20", "css/parser", "VxH_C20_ident", reach=["reparsed"], bounds="ident / at-keyword / id-hash / function name of 1..3 bytes (thorough 4), valid UTF-8, no NUL")
+H("C20", "css/parser", "VxH_C20_string", reach=["reparsed"], bounds="string / url value of 0..3 bytes (thorough 4), valid UTF-8, no NUL")
+H("C20", "css/parser", "VxH_C20_source", reach=["reparsed", "parse-error"], bounds="valid UTF-8 source text of 0..3 bytes (thorough 4)", thorough={"shards": 12, "time": "2400s", "maxpaths": 4000000, "sharddepth": 26})
+H("C20", "css/parser", "VxH_C20_pairs", reach=["reparsed", "not-single-tokens"], bounds="two adjacent tokens, each tokenized from its own valid UTF-8 source of 1..2 bytes (quick: not both of 2 bytes)", quick={"shards": 8, "time": "400s", "sharddepth": 22}, thorough={"shards": 12, "time": "2400s", "maxpaths": 4000000, "sharddepth": 26})
+H("C20", "css/parser", "VxH_C20_unit", reach=["reparsed"], bounds="dimension 1<unit> / 1.5<unit>, unit of 1..2 bytes (thorough 3), valid UTF-8, no NUL")
